@@ -130,10 +130,10 @@ def nontriv(ctx, case, base):
         ctx.nontrivial.add(common.case_hash(case))
 
 
-def perm_checks(ctx, stream, count, rng):
+def perm_checks(ctx, stream, count, rng, gen=None):
     bad = n = 0
     for _ in range(count):
-        e, prof, seats = gen_case(rng)
+        e, prof, seats = (gen or gen_case)(rng)
         base = evalreg.outcome(e, prof, seats)
         ctx.evaluations += 1
         ctx.dist['stream:' + stream] += 1
@@ -413,6 +413,17 @@ def explore(ctx, widen=1):
         replay_case(ctx, c, 'corpus')
     perm_checks(ctx, 'perm', ctx.n(2000, 30000) * widen, rng)
     stv_boundary_checks(ctx, 'stv-boundary-perm', ctx.n(500, 6000) * widen, rng)
+    # path-based rules on five and six candidates (long beat paths, cycles): the order in which pairs / candidates are visited
+    reg = evalreg.registry()
+    path_names = [nm for nm in reg if 'schulze' in nm or 'rankedpairs' in nm or nm in ('smith', 'schwartz', 'tideman_alt', 'benham')]
+
+    def gen_paths(r):
+        e = reg[r.choice(path_names)]
+        if 'rankedpairs' in e['name']:
+            return gen_case(r, [e['name']])
+        prof = evalreg.gen_profile(r, e['vtype'], m=r.randint(5, 6), shared=(e['needs'] != 'noshared'))
+        return e, prof, r.randint(1, 3)
+    perm_checks(ctx, 'perm-paths', ctx.n(900, 9000) * widen, rng, gen=gen_paths)
     rename_checks(ctx, 'rename', ctx.n(1200, 15000) * widen, rng)
     symmetric_checks(ctx, 'symmetric', ctx.n(1200, 15000) * widen, rng)
     hashseed_checks(ctx, 'hashseed', ctx.n(500, 4000) * widen, rng, SEEDS_Q if ctx.tier == 'quick' else SEEDS_T)
